@@ -633,3 +633,97 @@ def _mentions(t, needle):
         return not hit
     mir.walk(t, vis)
     return bool(hit)
+
+
+@rule("R-AXISSWAP-SHORTCUT", ["C11"])
+def r_axisswap_shortcut(cx):
+    """axisswap has exactly one "nothing to do" case: no `order` given (the default order 1,2,3,4). Every return of its
+    forward / inverse function that by-passes the per-tuple loop is decided by the presence of the `order` series alone -
+    not by its length or content: a one-element order such as `order=-1` still flips a sign."""
+    import guards
+    n = 0
+    for role, fn in (("fwd", "inner_op::axisswap::fwd"), ("inv", "inner_op::axisswap::inv")):
+        f = cx.f.fn(fn)
+        heads = [pt.header for pt in pertuple.per_tuple_loops(f)]
+        rets = [b for b in f.reachable() if f.term(b)["k"] == "return"]
+        free = f.reach_from([0], avoid=tuple(heads)) if heads else set()
+        bad = []
+        for b in sorted(free):
+            t = f.term(b)
+            if t["k"] != "switch":
+                continue
+            if not (any(any(r in f.reach_from([x], avoid=tuple(heads)) for r in rets) for x in set(f.succ[b])) and
+                    any(h in f.reach_from([b]) for h in heads)):
+                continue
+            n += 1
+            for at in guards.atoms(f, f.operand(t["discr"], f.end_point(b))):
+                at = mir.strip_refs(at)
+                # allowed: the discriminant of the Result / Option of `params.series("order")`
+                inner = at[1] if at[0] == "discr" else at
+                inner = mir.strip_refs(inner)
+                is_presence = at[0] == "discr" and inner[0] == "call" and isinstance(inner[1], str) and \
+                    inner[1].rsplit("::", 1)[-1] in ("series", "get", "contains_key")
+                if not is_presence:
+                    bad.append(at)
+        ok = bool(heads) and not bad
+        cx.ob("R-AXISSWAP-SHORTCUT", role, ok,
+              "axisswap %s by-passes its loop only when no `order` is given" % role if ok else
+              "axisswap %s returns without entering its per-tuple loop on a condition about the content of `order` (%s): a "
+              "short order that only flips a sign (`order=-1`) is treated as nothing to do" % (
+                  role, mir.show(bad[0], maxd=3)[:60] if bad else "no loop found"), cx.where(f.d["span"]))
+    cx.count("R-AXISSWAP-SHORTCUT", "deciders", n)
+
+
+@rule("R-NOOP-EXACT", ["C11"])
+def r_noop_exact(cx):
+    """adapt skips its work when the combined descriptor is a no-op: identity permutation and all multipliers exactly 1.
+    The `noop` value is an exact comparison of the multipliers with the constant 1.0 - nothing that discards their sign
+    (abs, squares) or tolerates a difference: a pure sign flip (`from=enuf to=wnuf`) is not a no-op."""
+    n = 0
+    for fn in ("inner_op::adapt::coordinate_order_descriptor", "inner_op::adapt::combine_descriptors"):
+        f = cx.f.fn(fn)
+        names = [fn] + [x for x in cx.f.lib["fns"] if x.startswith("inner_op::adapt::") and "::tests" not in x and x.endswith("is_noop")]
+        # the aggregate(s) of CoordinateOrderDescriptor built / the store to .noop
+        vals = []
+        for bb, i, s in f.all_stmts():
+            if s["k"] != "assign":
+                continue
+            if s["rv"]["k"] == "agg" and "CoordinateOrderDescriptor" in str(s["rv"].get("adt", "")):
+                v = f.rvalue(s["rv"], (bb, i))
+                if v[0] == "agg" and len(v[2]) == 3:
+                    vals.append((bb, v[2][2], s.get("span")))
+            pl = s["place"]
+            if any(isinstance(p, dict) and p.get("f") == 2 for p in pl["p"]) and "bool" in str([p.get("ty") for p in pl["p"] if isinstance(p, dict)]):
+                vals.append((bb, f.rvalue(s["rv"], (bb, i)), s.get("span")))
+        for bb, v, sp in vals:
+            v = mir.strip_refs(v)
+            import elems as E
+            v = E.look_through_calls(f, v)
+            if v[0] == "const":
+                continue
+            n += 1
+            lossy = []
+            mir.walk(v, lambda y: (lossy.append(y[1].rsplit("::", 1)[-1]) if y[0] == "call" and isinstance(y[1], str) and
+                                   y[1].rsplit("::", 1)[-1] in ("abs", "powi", "powf", "signum", "hypot") else None) or True)
+            cmp_ops = []
+            mir.walk(v, lambda y: (cmp_ops.append(y[1]) if y[0] == "bin" and y[1] in ("Lt", "Le", "Gt", "Ge") else None) or True)
+            # predicates handed to iterator adaptors (`mult.iter().all(|m| ..)`)
+            clos = []
+            mir.walk(v, lambda y: (clos.append(y[1][1]) if y[0] == "agg" and isinstance(y[1], tuple) and y[1][0] == "closure" else None) or True)
+            for cn in clos:
+                if not cx.f.has_fn(cn):
+                    continue
+                g = cx.f.fn(cn)
+                for b2, t2 in g.calls():
+                    tl = (g.callee(t2) or "").rsplit("::", 1)[-1]
+                    if tl in ("abs", "powi", "powf", "signum", "hypot"):
+                        lossy.append(tl)
+                for b2, i2, s2 in g.all_stmts():
+                    if s2["k"] == "assign" and s2["rv"]["k"] == "bin" and s2["rv"].get("op") in ("Lt", "Le", "Gt", "Ge"):
+                        cmp_ops.append(s2["rv"]["op"])
+            ok = not lossy and not cmp_ops
+            cx.ob("R-NOOP-EXACT", "%s/noop%d" % (fn.rsplit("::", 1)[-1], n - 1), ok,
+                  "the no-op test compares the multipliers exactly" if ok else
+                  "adapt decides `noop` through %s: a descriptor pair that only flips signs (multipliers -1) is taken for a "
+                  "no-op and the tuple passes unchanged" % ", ".join(sorted(set(lossy + cmp_ops))), cx.where(sp))
+    cx.count("R-NOOP-EXACT", "noop_values", n)
